@@ -136,7 +136,7 @@ def portrefs(c0, c1, c2, c3, c4, w):
 # ------------------------------------------------------------------ T3 bundles
 def _bdefs(w):
     B = BundleDef("B", [("x", w), ("y", 1)])
-    N = BundleDef("N", [("z", 1)], [("b", B)])
+    N = BundleDef("N", [("z", 1), ("y", 1)], [("b", B)])  # (a scalar `y` of its own next to the sub-bundle's `b.y`)
     return B, N
 
 
@@ -158,22 +158,24 @@ def _t3(s0, s1, w):
     # (stored under the member's key `b`, not under the instance's own name)
     nleaf = Mod("NLeaf", ports=[], buns=[("n", N, True)], insts=[
         Inst("u", Ext("Cell", [("a", w), ("b", 1)]), {"a": BRef("n", ("b", "x")), "b": BRef("n", ("z",))}),
-        Inst("r1", R(), {"p": BRef("n", ("b", "y")), "n": BRef("n", ("z",))})])
+        Inst("r1", R(), {"p": BRef("n", ("b", "y")), "n": BRef("n", ("z",))}),
+        Inst("r2", R(), {"p": BRef("n", ("y",)), "n": BRef("n", ("z",))})])
     return Mod("Top", ports=[("t", 1), ("sx", w), ("wide", w + 1)],
                buns=[("bb", B, False), ("pb", B, True), ("nn", N, False)],
                insts=[Inst("i0", bleaf, {"b": bopt(s0, True), "g": Sig("t")}),
                       Inst("i1", bleaf, {"b": bopt(s1, False), "g": BRef("nn", ("z",))}),
-                      Inst("i2", nleaf, {"n": Anon((("z", Sig("t")), ("b", Bun("pb" if s1 % 2 else "bb"))))}),
+                      Inst("i2", nleaf, {"n": Anon((("z", Sig("t")), ("y", Idx(Sig("wide"), 0)), ("b", Bun("pb" if s1 % 2 else "bb"))))}),
                       # observability probes for the internal bundles
                       Inst("p0", R(), {"p": Idx(BRef("bb", ("x",)), 0), "n": Sig("t")}),
-                      Inst("p1", R(), {"p": Idx(BRef("nn", ("b", "x")), -1), "n": BRef("nn", ("b", "y"))})])
+                      Inst("p1", R(), {"p": Idx(BRef("nn", ("b", "x")), -1), "n": BRef("nn", ("b", "y"))}),
+                      Inst("p2", R(), {"p": BRef("nn", ("y",)), "n": Sig("t")})])
 
 
 @harness("C01", also=("C06", "C11"), args="s0: int, s1: int, w: int", pre=["0 <= s0 <= 5", "0 <= s1 <= 6", "1 <= w"],
          tiers={"quick": {"timeout": 170, "pre": ["w <= 2"], "parts": parts_over("s0", range(6))},
                 "thorough": {"timeout": 1200, "pre": ["w <= 3"], "parts": parts_product(parts_over("s0", range(6)), parts_over("s1", range(7)))}},
          sample=(3, 6, 2),
-         bounds="two instances of a module with a bundle-valued port; each connected to: internal bundle instance, bundle port of the parent, reference into a nested bundle, anonymous bundles of signals / slices / bundle references, port reference to the other instance's bundle port; leaf width w<=2 (quick) / <=3",
+         bounds="two instances of a module with a bundle-valued port; each connected to: internal bundle instance, bundle port of the parent, reference into a nested bundle, anonymous bundles of signals / slices / bundle references, port reference to the other instance's bundle port; the nested bundle has a scalar named like a scalar of its sub-bundle; leaf width w<=2 (quick) / <=3",
          generalises="leaf width; connection selectors", outside="deeper bundle nesting (see C10)")
 def bundles(s0, s1, w):
     return dc.run(_t3(s0, s1, w))
